@@ -35,6 +35,12 @@ def scenarios(tier: str) -> List[ConcScenario]:
     S.append(ConcScenario('tree/untreeify-by-compute-vs-replace', hasher='const', capacity=40, prefill=tree, setup_removes=[0, 1, 2], threads=[[('compute_none', 3)], [('insert', 5)]], preemptions=2, yield_loads=th))
     S.append(ConcScenario('tree/untreeify-by-remove-vs-new-key', hasher='const', capacity=40, prefill=tree, setup_removes=[0, 1, 2], threads=[[('remove', 3)], [('insert', 20)]], preemptions=2, yield_loads=th))
     S.append(ConcScenario('tree/untreeify-by-compute-vs-remove', hasher='samebin', capacity=40, prefill=tree, setup_removes=[0, 1, 2], threads=[[('compute_none', 3)], [('remove', 7)]], preemptions=2, yield_loads=th))
+    # a reader inside the tree while a writer restructures it (rotations on insert, successor swap on removal)
+    S.append(ConcScenario('tree/get-vs-rotating-inserts', hasher='const', capacity=40, prefill=tree, threads=[[('insert', 10), ('insert', 11)], [('get', 8)]], preemptions=2))
+    S.append(ConcScenario('tree/get-vs-remove-parent', hasher='const', capacity=40, prefill=tree, threads=[[('remove', 5)], [('get', 4)]], preemptions=2))
+    S.append(ConcScenario('tree/get-vs-remove-parent2', hasher='samebin', capacity=40, prefill=tree, threads=[[('remove', 3)], [('get', 2)]], preemptions=2))
+    # the bin a resize is waiting for is untreeified by the lock holder
+    S.append(ConcScenario('tree/untreeify-vs-resize', hasher='const', capacity=40, prefill=tree, setup_removes=[0, 1, 2], threads=[[('compute_none', 3)], [('reserve', 40)]], preemptions=(2 if th else 1), yield_loads=False))
     S.append(ConcScenario('tree/split-by-resize-vs-remove', hasher='split', capacity=40, prefill=list(range(10)), threads=[[('reserve', 40)], [('remove', 3)]], preemptions=(2 if th else 1), yield_loads=False))
     if th:
         S.append(ConcScenario('list/three-threads', hasher='identity', capacity=2, prefill=[0], threads=[[('insert', 4)], [('remove', 0)], [('get', 4)]], preemptions=2))
